@@ -136,12 +136,15 @@ def summaries(fn):
     return jhas(lambda j: fn(j['provider_summaries']))
 
 
-def features():
+def features(d=None):
     """list of (name, N, req_builder(minor, setting), present, absent,
     applicable_from) - present must hold at >= N, absent below N (only
     evaluated from applicable_from on; below that the route itself is missing
     and availability is judged by part (a))."""
     F = []
+    gE = d.providers[E]['generation'] if d is not None else 1
+    cgK1 = d.consumers[K1]['generation'] if d is not None else 1
+    others = (set(d.providers) - {R}) if d is not None else {C, S, E}
 
     def add(name, n, build, present, absent, frm=0):
         F.append((name, n, build, present, absent, frm))
@@ -195,7 +198,7 @@ def features():
     add('1.19 aggregates PUT dict body with generation', 19,
         lambda v, s: Req('PUT', '/resource_providers/%s/aggregates' % E, s,
                          {'aggregates': [A2],
-                          'resource_provider_generation': 1}),
+                          'resource_provider_generation': gE}),
         both(st_in(200), jhas(lambda j:
                               'resource_provider_generation' in j)),
         st_in(400), 1)
@@ -226,7 +229,7 @@ def features():
     # 1.26 reserved == total
     add('1.26 reserved == total accepted', 26,
         lambda v, s: Req('PUT', '/resource_providers/%s/inventories/VCPU'
-                         % E, s, {'resource_provider_generation': 1,
+                         % E, s, {'resource_provider_generation': gE,
                                   'total': 4, 'reserved': 4}),
         st_in(200), st_in(400))
     # 1.28 consumer generation
@@ -249,7 +252,7 @@ def features():
     add('1.28 empty allocations accepted by PUT', 28,
         lambda v, s: Req('PUT', '/allocations/%s' % K1, s, dict(
             alloc_body(v, empty=True, fmt='dict' if v >= 12 else 'list'),
-            **({'consumer_generation': 1} if v >= 28 else {}))),
+            **({'consumer_generation': cgK1} if v >= 28 else {}))),
         st_in(204), st_in(400))
     add('1.28 stale consumer generation is 409', 28,
         lambda v, s: Req('PUT', '/allocations/%s' % K1, s, dict(
@@ -318,7 +321,7 @@ def features():
         lambda v, s: Req('GET',
                          '/resource_providers?required=!CUSTOM_T1', s),
         jhas(lambda j: {x['uuid'] for x in j['resource_providers']}
-             == {C, S, E}), st_in(400), 18)
+             == others), st_in(400), 18)
     add('1.24 repeated member_of on resource_providers', 24,
         lambda v, s: Req('GET', '/resource_providers?member_of=%s&'
                          'member_of=%s' % (A1, A2), s),
@@ -638,7 +641,7 @@ def run_shard(spec, res):
                             'inventories', 'below 1.5': 405,
                             'from 1.5': 'not 404/405'})
         else:
-            feats = features()
+            feats = features(d0)
             mine = [f for i, f in enumerate(feats)
                     if i % spec['of'] == spec['slice']]
             res.count('features', len(mine))
